@@ -94,4 +94,23 @@ func (lb *headerHashLoadBalancer) ChooseServer(req *httpprot.Request) (s *Server
   requires list-fits-uint32: len(lb.Servers) < pow2(32)
   ensures empty: len(lb.Servers) == 0 ==> s == nil
   ensures sticky: len(lb.Servers) > 0 ==> (let v = headerGet(ref(req.Request.Header), lb.key) in s == lb.Servers[fnv32(bytes(v), len(v)) % len(lb.Servers)])
+
+// ---- C03: hop-by-hop headers are stripped, end-to-end headers are forwarded unchanged ----
+// a header is named by Connection if some token of some Connection line canonicalises to it
+pred connToken(in http.Header, i int, j int) := trimmed(splitPart(in["Connection"][i], ",", j))
+pred namedByConnection(in http.Header, k string) := exists i, j int :: 0 <= i && i < len(in["Connection"]) && 0 <= j && j < splitCount(in["Connection"][i], ",") && connToken(in, i, j) != "" && canon(connToken(in, i, j)) == k
+pred hopByHop(k string) := k == canon("Connection") || k == canon("Proxy-Connection") || k == canon("Keep-Alive") || k == canon("Proxy-Authenticate") || k == canon("Proxy-Authorization") || k == canon("Te") || k == canon("Trailer") || k == canon("Transfer-Encoding") || k == canon("Upgrade")
+
+func cloneHeader(in http.Header) (out http.Header)
+  flag allocates
+  requires in != nil
+  ensures out != nil && fresh(out)
+  ensures end-to-end-headers-forwarded-hop-by-hop-removed: forall k string :: (k in out) <==> ((k in in) && !hopByHop(k) && !namedByConnection(in, k))
+  ensures forwarded-values-unchanged: forall k string :: k in out ==> out[k] == in[k]
+  invariant[1] out != nil && fresh(out) && (forall k string :: k in out ==> (k in in) && out[k] == in[k])
+  invariant[1] lines-so-far: forall k string :: (k in out) <==> ((k in in) && !(exists i, j int :: 0 <= i && i < idx$1 && 0 <= j && j < splitCount(in["Connection"][i], ",") && connToken(in, i, j) != "" && canon(connToken(in, i, j)) == k))
+  invariant[2] out != nil && fresh(out) && (forall k string :: k in out ==> (k in in) && out[k] == in[k]) && 0 <= idx$1 && idx$1 < len(in["Connection"]) && f == in["Connection"][idx$1] && len(range$2) == splitCount(f, ",") && (forall j int :: 0 <= j && j < len(range$2) ==> range$2[j] == splitPart(f, ",", j))
+  invariant[2] tokens-so-far: forall k string :: (k in out) <==> ((k in in) && !(exists i, j int :: ((0 <= i && i < idx$1 && 0 <= j && j < splitCount(in["Connection"][i], ",")) || (i == idx$1 && 0 <= j && j < idx$2)) && connToken(in, i, j) != "" && canon(connToken(in, i, j)) == k))
+  invariant[3] out != nil && fresh(out) && (forall k string :: k in out ==> (k in in) && out[k] == in[k])
+  invariant[3] hop-so-far: forall k string :: (k in out) <==> ((k in in) && !namedByConnection(in, k) && !(exists n int :: 0 <= n && n < idx$3 && k == canon(hopHeaders[n])))
 @*/
